@@ -193,6 +193,13 @@ def RC(origin, _name="R", **attrs):
     return LogicalType(_name, bases, dict(attrs))
 
 
+def RM(origin, *parts):
+    """class M(origin, P0, P1, ...): pass   with Pi = class Pi(Rule): <parts[i]> -- constraints inherited from several
+    rules, none declared in the body"""
+    bases = tuple(LogicalType("P%d" % i, (Rule,), dict(p)) for i, p in enumerate(parts))
+    return LogicalType("M", ((origin,) if origin is not None else ()) + bases, {})
+
+
 def RO(origin, _name="R", **attrs):
     """class R(Rule): __origin__ = origin; <attrs>"""
     return LogicalType(_name, (Rule,), dict(__origin__=origin, **attrs))
